@@ -264,6 +264,12 @@ pub fn gen_cfg(id: &str, tier: Tier, variant: u64) -> GenCfg {
         }
         // bookkeeping must stay exact (records of a destroyed object disappear
         // from every peer) also when handles were given up without unadopt
+        // counts stay exact (handles that exist, not records) when unadopt is elided
+        "C06" if variant % 4 == 2 => {
+            let mut g = GenCfg::new(Mode::Elide, ops);
+            g.weights.remove = 12;
+            g
+        }
         "C08" if variant % 4 == 2 => {
             let mut g = GenCfg::new(Mode::Elide, ops);
             g.weights.remove = 12;
